@@ -56,7 +56,7 @@ class _StoreSplitAction(argparse.Action):
             split_values = [template.substitute(value=v) for v in split_values]
         if self.dest == "passes":
             passes = getattr(namespace, "_passes")
-            passes[option_string] = split_values
+            passes[self.option_strings[0]] = split_values
         else:
             setattr(namespace, self.dest, split_values)
 
